@@ -23,6 +23,7 @@ type C11Step struct {
 	Rule  *C11Rule `json:"rule,omitempty"`
 	Sig   C11Sig   `json:"sig"`
 	Depth int      `json:"depth,omitempty"`
+	FR    int      `json:"fr,omitempty"` // k > 0: the k-th storage read of the node's admission of this transaction fails
 }
 
 // C11Plan is a complete C11 scenario.
@@ -179,5 +180,12 @@ func GenC11Plan(rt *rapid.T, tier string) *C11Plan {
 	}
 	// every scenario ends with confirming what is pending and one exhaustive evaluation
 	pl.Steps = append(pl.Steps, C11Step{Op: "mine"}, C11Step{Op: "enum"})
+	// storage read faults during admission (drawn last; the smallest draw is "none"): a rule that cannot
+	// be read may fail the transaction but must never open the account
+	nf := rapid.IntRange(0, 3).Draw(rt, "nreadfaults")
+	for i := 0; i < nf && len(pl.Steps) > 2; i++ {
+		j := rapid.IntRange(0, len(pl.Steps)-3).Draw(rt, "readfault-step")
+		pl.Steps[j].FR = rapid.IntRange(1, 24).Draw(rt, "readfault-at")
+	}
 	return pl
 }
